@@ -53,6 +53,8 @@ func main() {
 		runLifeProfile(l, *profile, *n, *steps)
 		tr.Close()
 		fmt.Printf("events=%d\n", tr.N)
+	case "dvvisit":
+		runDvVisit(*in, *tables, *dir, *out, *quick)
 	case "postiter":
 		runPostIter(*in, *tables, *batches, *dir, *out, *quick, *seed)
 	case "life-rerun":
